@@ -1,5 +1,5 @@
 """C02 — reads return only the current value of the key, never stale or foreign (necessary structure).  (DESIGN §4 C02)"""
-from core import (strip_site, same_value, fmt, enum_paths, path_atoms, path_calls, path_return, ret_variant, mentions,
+from core import (closure_captures, strip_site, same_value, fmt, enum_paths, path_atoms, path_calls, path_return, ret_variant, mentions,
                   subexprs, is_call_to, root_calls, dashmap_call, inline_ctor, unclone, peel_identity)
 from livemodel import LiveModel
 from storemodel import StoreModel
@@ -103,6 +103,10 @@ def run(ctx):
                     k = c.op_origin(t["args"][1])
                     r = c.origin_local(0)
                     ok = k == ("param", 2)
+                    if not ok and k[0] == "field" and k[1] == ("env",):
+                        # a closure without a key parameter (`with_check(|| self.get(key))`): the captured key must be the caller's
+                        cc = closure_captures(F, c.name)
+                        ok = bool(cc) and cc[1].get(k[2]) == ("param", 2)
                     if r[0] == "agg" and r[1] == "tuple":
                         ok = ok and r[3][0][1] == ("param", 2) and strip_site(r[3][1][1]) == strip_site(c.origin_call(bb, t))
                     ctx.check(ok, "R02.2", "%s|pairs-key-with-its-own-value" % c.name, "each key is paired with the value read for that same key", c.where(bb), fmt(r))
